@@ -1,0 +1,166 @@
+//go:build verif
+
+package server
+
+import (
+	"encoding/json"
+	"sort"
+
+	"github.com/resgateio/resgate/server/rescache"
+	"github.com/resgateio/resgate/server/verifhook"
+)
+
+func verifPoint(site string) { verifhook.Point(site) }
+
+func verifCount(site string) { verifhook.Count(site) }
+
+func verifActivity() { verifhook.Activity() }
+
+func verifSub(site string, s *Subscription) {
+	if site == "populate" {
+		if s.state != stateDeleted {
+			return
+		}
+		site = "populate.deleted"
+	}
+	verifhook.AddNote(site, s.c.CID()+" "+s.rid)
+}
+
+// VerifCache returns the service's resource cache.
+func (s *Service) VerifCache() *rescache.Cache { return s.cache }
+
+// VerifIdle reports whether every connection worker is idle with an empty queue.
+func (s *Service) VerifIdle() bool {
+	s.mu.Lock()
+	defer s.mu.Unlock()
+	for _, c := range s.conns {
+		c.mu.Lock()
+		n := len(c.queue)
+		c.mu.Unlock()
+		if n > 0 {
+			return false
+		}
+	}
+	return true
+}
+
+// VerifConnCount returns the number of registered connections.
+func (s *Service) VerifConnCount() int {
+	s.mu.Lock()
+	defer s.mu.Unlock()
+	return len(s.conns)
+}
+
+// VerifConnIDs returns the ids of all registered connections.
+func (s *Service) VerifConnIDs() []string {
+	s.mu.Lock()
+	defer s.mu.Unlock()
+	ids := make([]string, 0, len(s.conns))
+	for cid := range s.conns {
+		ids = append(ids, cid)
+	}
+	sort.Strings(ids)
+	return ids
+}
+
+// VerifSubSnap is a snapshot of one Subscription of a connection.
+type VerifSubSnap struct {
+	RID          string
+	Direct       int
+	Indirect     int
+	IndirectSent int
+	State        int // 0 disposed 1 loading 2 loaded 3 ready 4 toSend 5 sent 6 deleted
+	HasRS        bool
+	QueueFlag    uint8
+	Queued       int
+	Flags        uint8
+	Err          string
+	Refs         map[string]int
+	Version      uint
+	Type         int
+	Data         json.RawMessage
+	Access       bool
+}
+
+// VerifConnSnap is a snapshot of one connection.
+type VerifConnSnap struct {
+	CID       string
+	Token     json.RawMessage
+	TID       string
+	Proto     int
+	HasWS     bool
+	Subs      map[string]VerifSubSnap
+	Reachable bool // false if the connection refused the snapshot closure (disposing)
+}
+
+// VerifConns returns a snapshot of every registered connection, taken on each
+// connection's own worker goroutine.
+func (s *Service) VerifConns() []VerifConnSnap {
+	s.mu.Lock()
+	conns := make([]*wsConn, 0, len(s.conns))
+	for _, c := range s.conns {
+		conns = append(conns, c)
+	}
+	s.mu.Unlock()
+	sort.Slice(conns, func(i, j int) bool { return conns[i].cid < conns[j].cid })
+
+	out := make([]VerifConnSnap, 0, len(conns))
+	for _, c := range conns {
+		c := c
+		snap := VerifConnSnap{CID: c.cid}
+		done := make(chan struct{})
+		if c.Enqueue(func() {
+			defer close(done)
+			snap.Reachable = true
+			snap.Token = append(json.RawMessage(nil), c.token...)
+			snap.TID = c.tid
+			snap.Proto = c.protocolVer
+			snap.HasWS = c.ws != nil
+			snap.Subs = make(map[string]VerifSubSnap, len(c.subs))
+			for rid, sub := range c.subs {
+				ss := VerifSubSnap{
+					RID:          sub.rid,
+					Direct:       sub.direct,
+					Indirect:     sub.indirect,
+					IndirectSent: sub.indirectsent,
+					State:        int(sub.state),
+					HasRS:        sub.resourceSub != nil,
+					QueueFlag:    sub.queueFlag,
+					Queued:       len(sub.eventQueue),
+					Flags:        sub.flags,
+					Version:      sub.version,
+					Type:         int(sub.typ),
+					Access:       sub.access != nil,
+				}
+				if sub.err != nil {
+					ss.Err = sub.err.Error()
+				}
+				if len(sub.refs) > 0 {
+					ss.Refs = make(map[string]int, len(sub.refs))
+					for r, ref := range sub.refs {
+						ss.Refs[r] = ref.count
+					}
+				}
+				if sub.model != nil {
+					ss.Data, _ = json.Marshal(sub.model.Values)
+				} else if sub.collection != nil {
+					ss.Data, _ = json.Marshal(sub.collection.Values)
+				}
+				snap.Subs[rid] = ss
+			}
+		}) {
+			<-done
+		}
+		out = append(out, snap)
+	}
+	return out
+}
+
+// VerifMatchesOrigins exposes the origin allow-list matcher.
+func VerifMatchesOrigins(os []string, o string) bool { return matchesOrigins(os, o) }
+
+// VerifErrorStatus exposes the error code to HTTP status mapping.
+func VerifErrorStatus(err error) int {
+	_, code := errorStatus(err)
+	return code
+}
